@@ -200,6 +200,11 @@ impl Scenario for Close {
                         if tier == "thorough" && !stall && after == "closeok" {
                             v.push(json!({"who": who, "after": after, "stall": stall, "code": code, "fine": true}));
                         }
+                        // a backlog of more than a megabyte behind the stalled transport when the
+                        // close happens (sizes no other variant reaches)
+                        if stall && after == "closeok" && code == 320 {
+                            v.push(json!({"who": who, "after": after, "stall": stall, "code": code, "big": true}));
+                        }
                     }
                 }
             }
@@ -209,6 +214,9 @@ impl Scenario for Close {
     fn bound(&self, tier: &str, p: &Value) -> usize {
         if p["fine"] == true {
             return 2;
+        }
+        if p["big"] == true {
+            return if tier == "thorough" { 2 } else { 1 };
         }
         if tier == "thorough" {
             3
@@ -222,6 +230,7 @@ impl Scenario for Close {
     fn build(&self, p: &Value) -> Built {
         let mut broker = StdBroker::new(Handshake::default());
         let server = p["who"] == "server";
+        let big = p["big"] == true;
         let code = p["code"].as_u64().unwrap() as u16;
         if p["after"] == "closeok+eof" {
             broker.close_behaviour = CloseBehaviour::CloseOkThenEof;
@@ -293,7 +302,8 @@ impl Scenario for Close {
                 let b = ctx.spawn("b", move |ctx| {
                     let ch: Channel = ch2;
                     for i in 0..2u8 {
-                        let r = ch.basic_publish("", Publish::new(&[i, i, i], "rk"));
+                        let body = if big && i == 0 { vec![7u8; 1_300_000] } else { vec![i, i, i] };
+                        let r = ch.basic_publish("", Publish::new(&body, "rk"));
                         ctx.log(format!("publish{} -> {}", i, res(&r)));
                     }
                     for i in 0..3 {
